@@ -149,7 +149,7 @@ def build_alias(fn):
     for n in find_all(fn["body"], lambda n: n.get("k") == "let"):
         p = n["pat"]
         r = root(n["init"]) if n["init"] else None
-        if r is None:
+        if r is None or r[:1].isupper() or "::" in r:
             continue
         if p["k"] == "ident":
             alias.setdefault(p["name"], r)
@@ -324,8 +324,8 @@ def run(ctx):
     ctx.rule("SER-KEYS", "every key a Serialize impl writes is accepted by the visitor and stored in the same field", floor=16)
     ctx.rule("SER-REQUIRED", "visitor-required keys are written unconditionally, conditional keys default on the reading side, exclusive groups, declared length", floor=18)
     ctx.rule("IMAGE-CHANNELS", "channels constant = bytes per pixel written, accepted by the visitor; layout arms read N*(row*width+col)+k in rgba order", floor=6)
-    ctx.rule("FACE-NAMES", "FaceAttrs::names() / Display keys vs Face::from_str_named arms are inverse; separators; serde chain", floor=30)
-    ctx.rule("SIBLING-FILTER", "struct literals in from_json_value/visitors apply the filters their builder siblings apply (FlexChild.flex > 0)", floor=20)
+    ctx.rule("FACE-NAMES", "FaceAttrs::names() / Display keys vs Face::from_str_named arms are inverse; separators; serde chain", floor=33)
+    ctx.rule("SIBLING-FILTER", "struct literals in from_json_value/visitors apply the filters their builder siblings apply (FlexChild.flex > 0)", floor=138)
 
     # =========================== (b) key tables ==================================================
     pairs = [
@@ -481,16 +481,25 @@ def run(ctx):
             # length check dominates the layouts
             alias = build_alias(vfn)
             chk = None
+            defs = {}
+            for st in find_all(vfn, lambda x: x.get("k") == "let" and x["pat"]["k"] == "ident"):
+                defs.setdefault(st["pat"]["name"], st["init"])
+
+            def side_text(e):
+                for _ in range(4):
+                    while e is not None and e.get("k") == "call" and len(e["args"]) == 1:
+                        e = e["args"][0]
+                    if is_path(e) and e["p"] in defs and defs[e["p"]] is not None:
+                        e = defs[e["p"]]
+                    else:
+                        break
+                return expr_text(e) if e is not None else ""
             for n in find_all(vfn, lambda n: n.get("k") == "if" and n["line"] < lm["line"]):
                 c = n["cond"]
-                if c.get("k") == "bin" and c["op"] == "!=" and tail(n["then"]) is None or (c.get("k") == "bin" and c["op"] == "!=" and find_all(n["then"], lambda x: x.get("k") == "return")):
-                    sides = [c["l"], c["r"]]
-                    defs = {}
-                    for st in find_all(vfn, lambda x: x.get("k") == "let" and x["pat"]["k"] == "ident"):
-                        defs[st["pat"]["name"]] = st["init"]
-                    txt = [expr_text(defs.get(s["p"], s)) if is_path(s) else expr_text(s) for s in sides]
+                if c.get("k") == "bin" and c["op"] == "!=" and find_all(n["then"], lambda x: x.get("k") == "return"):
+                    txt = [side_text(c["l"]), side_text(c["r"])]
                     has_len = any(re.fullmatch(re.escape(dloc) + r"\.len\(\)", t) for t in txt)
-                    prod = [t for t in txt if cloc in t and "height" in t and "width" in t and "*" in t]
+                    prod = [t for t in txt if cloc in t and "height" in t and "width" in t and ("*" in t or "_mul" in t)]
                     if has_len and prod:
                         chk = prod[0]
             ctx.instance("IMAGE-CHANNELS", {"length_check": chk, "before_layouts": chk is not None})
@@ -813,10 +822,11 @@ def run(ctx):
             return ("raw", "parameter " + e["p"])
         return ("raw", expr_text(e))
 
+    nth = {}
     targets = sorted(nm for nm, sites in structs.items() if any(sc == "deser" for _, _, sc, _, _ in sites))
     ctx.extra["structs_built_by_deserialisers"] = targets
     for nm in targets:
-        sites = structs[nm]
+        sites = sorted(structs[nm], key=lambda x: (x[0], x[3]["line"]))
         fields = sorted({fl["name"] for _, _, _, lit, _ in sites for fl in lit["fields"]})
         for fld in fields:
             rows = []
@@ -834,7 +844,9 @@ def run(ctx):
                 agrees = (not ref) or cls[0] in ("none", "copy") or cls[0] in ref
                 ctx.instance("SIBLING-FILTER", {"struct": nm, "field": fld, "site": label, "scope": sc, "value": cls[0], "builder_filters": ref, "agrees": agrees})
                 if sc == "deser" and not agrees:
-                    ctx.violation("SIBLING-FILTER", label, "%s.%s:unfiltered" % (nm, fld),
+                    nth[(label, nm, fld)] = nth.get((label, nm, fld), 0) + 1
+                    k = nth[(label, nm, fld)]
+                    ctx.violation("SIBLING-FILTER", label, "%s.%s:unfiltered%s" % (nm, fld, "" if k == 1 else "#%d" % k),
                                   "%s { %s: %s } is built from deserialised input without the validation %s that the sibling builder applies to the same field "
                                   "(the builder's invariant does not hold for values read from JSON)" % (nm, fld, cls[1], ref), sites=["%s:%d" % (f, line)])
                 elif sc == "builder" and not agrees:
